@@ -153,7 +153,14 @@ func init() {
 				H = gen.History(hr, prof)
 			}
 			K := gen.History(hr, prof)
-			twinCase(rep, cfg, H, []engine.Op{{Kind: "reopen"}}, K, hseed, "reopen", true)
+			re := engine.Op{Kind: "reopen"}
+			if cfg.MaxSize != 0 && i%3 == 1 {
+				// the reopen passes a different maximum size but not FlagUpdMaxSize: the stored size is what counts
+				// (seeded change C10n: the option takes precedence over the file header)
+				re.MaxSize = []uint64{cfg.MaxSize * 2, cfg.MaxSize + 64*1024, 64 * 1024, cfg.MaxSize * 8}[(i/3)%4]
+				rep.count("reopen-with-another-max-size-option-and-no-flag", 1)
+			}
+			twinCase(rep, cfg, H, []engine.Op{re}, K, hseed, "reopen", true)
 			if i < 3 {
 				rep.sample(map[string]interface{}{"config": cfg.String(), "prefix_ops": len(H), "continuation": opKinds(K)})
 			}
